@@ -30,6 +30,12 @@ def big_inputs(rng, quick):
         # ... and divergent members, so that the profile columns hold many different residues
         root = gen.rand_seq(rng, alpha, 700)
         out.append(('long-many-divergent', kind, [gen.mutate(rng, root, alpha, 45, 6) + tail for _ in range(16)]))
+    # k-means AND sequences beyond the 1024-symbol cap of the distance kernel (its longest code path, run concurrently by the
+    # distance-matrix loop and the k-means leaf tasks)
+    for kind in (('dna', 'protein') if not quick else (rng.choice(['dna', 'protein']),)):
+        alpha = gen.DNA if kind == 'dna' else gen.PROT
+        root = gen.rand_seq(rng, alpha, rng.choice([1040, 1100, 1300]))
+        out.append(('kmeans-long', kind, [gen.mutate(rng, root, alpha, 10, 4) + ('WKW' if kind == 'protein' else '') for _ in range(rng.choice([100, 104, 112]))]))
     for _ in range(6 if quick else 40):
         kind = 'dna' if rng.chance(1, 2) else 'protein'
         fam, seqs = gen.family(rng, kind, small=False)
@@ -107,9 +113,14 @@ def run(ck):
     configs.append(('no-openmp no-avx2', kvp, None, [], 1))
     results = {}
     for label, exe, env, pre, thr in configs:
-        lines = pre + [line(seqs, kind, thr, 2) for (_, kind, seqs) in inputs]
-        res = ck.run_lines(exe, lines, timeout=3000, env=env)[len(pre):]
-        ck.evaluations += len(inputs)
+        # the injected delays are per hook event; the k-means input with > 1024 residues per sequence has very many of them and
+        # is run under the plain thread-count / runtime-setting configurations only
+        sel = [i for i, (fam, _, _) in enumerate(inputs) if not (pre and fam == 'kmeans-long')]
+        lines = pre + [line(inputs[i][2], inputs[i][1], thr, 2) for i in sel]
+        out = ck.run_lines(exe, lines, timeout=3000, env=env)[len(pre):]
+        ck.evaluations += len(sel)
+        res = [None] * len(inputs)
+        for i, o in zip(sel, out): res[i] = o
         results[label] = res
         ck.count('configuration:' + label, len(inputs))
     st = ck.corr.setdefault('Par fork-join model vs hook traces (merge after children, meetup after halves)', {'cases': 0, 'disagreements': 0})
@@ -119,6 +130,7 @@ def run(ck):
         ref = results[ref_label][i].split('|')[0]
         for label, exe, env, pre, thr in configs:
             r = results[label][i]
+            if r is None: continue
             rows = r.split('|')[0]
             if r.startswith('CRASH') or not rows.startswith('OK'):
                 wit.append({'kind': 'run-failed', 'configuration': label, 'family': fam, 'n_sequences': len(seqs), 'implementation': r[:300], 'seqs': seqs if len(seqs) < 8 else seqs[:8]})
